@@ -2,7 +2,7 @@
    Print Assumptions. *)
 From Coq Require Import ZArith NArith List Bool Sorted.
 From Centro Require Import Base.GraphC15 Model.LabelGraph Spec.LabelGraph
-  Proofs.ColorC15 Proofs.DfsC15 Proofs.AccC15 Proofs.EulerC15 Proofs.RelabelC15 Proofs.NeighborsC15 Proofs.EulerQuadC15 Proofs.EulerStepC15.
+  Proofs.ColorC15 Proofs.DfsC15 Proofs.AccC15 Proofs.EulerC15 Proofs.RelabelC15 Proofs.NeighborsC15 Proofs.EulerQuadC15 Proofs.EulerStepC15 Proofs.AccCertC15 Proofs.SpecC15.
 Import ListNotations.
 
 (* ---- all_connected_components / _all_connected_components (Full, including termination) ----
@@ -150,3 +150,71 @@ Theorem C15_euler_is_components_minus_holes_binary : forall h w im l,
   euler4 im l = 4 * euler_spec im l.
 Proof. exact euler_components_minus_holes_4x4. Qed.
 Print Assumptions C15_euler_is_components_minus_holes_binary.
+
+(* ================================================================ the checkers that are run on the
+   implementation's outputs have a declarative meaning (checker soundness, all Full) *)
+
+(* the flood fill counts the classes of the connectivity relation (paths inside the set along a
+   symmetric adjacency): there is a list of representatives, exactly one per class *)
+Theorem C15_n_components_spec : forall (A : Type) (adj : A -> A -> bool), (forall x y, adj x y = adj y x) ->
+  forall s : list A, NoDup s -> exists reps : list A,
+  n_components adj s = Z.of_nat (length reps) /\ NoDup reps /\
+  (forall r, In r reps -> In r s) /\
+  (forall x, In x s -> exists r, In r reps /\ cpath adj s r x) /\
+  (forall r1 r2, In r1 reps -> In r2 reps -> cpath adj s r1 r2 -> r1 = r2).
+Proof. exact @n_components_spec. Qed.
+Print Assumptions C15_n_components_spec.
+
+Theorem C15_euler_spec_meaning : forall (img : image) (l : Z), l <> 0 -> exists fg bg : list px,
+  euler_spec img l = Z.of_nat (length fg) - (Z.of_nat (length bg) - 1) /\
+  (NoDup fg /\ (forall r, In r fg -> In r (pixels_of img l)) /\
+   (forall p, In p (pixels_of img l) -> exists r, In r fg /\ cpath adj8 (pixels_of img l) r p) /\
+   (forall r1 r2, In r1 fg -> In r2 fg -> cpath adj8 (pixels_of img l) r1 r2 -> r1 = r2)) /\
+  (NoDup bg /\ (forall r, In r bg -> In r (complement_of img l)) /\
+   (forall p, In p (complement_of img l) -> exists r, In r bg /\ cpath adj4 (complement_of img l) r p) /\
+   (forall r1 r2, In r1 bg -> In r2 bg -> cpath adj4 (complement_of img l) r1 r2 -> r1 = r2)).
+Proof. exact euler_spec_meaning. Qed.
+Print Assumptions C15_euler_spec_meaning.
+
+Theorem C15_euler_ok_sound : forall img idx w4, euler_ok img idx w4 = true ->
+  length idx = length w4 /\ forall k, (k < length idx)%nat -> nth k w4 0 = 4 * euler_spec img (nth k idx 0).
+Proof. exact euler_ok_sound. Qed.
+Print Assumptions C15_euler_ok_sound.
+
+Theorem C15_neighbors_ok_sound : forall img v_count v_index v_neighbor, rect img ->
+  neighbors_ok img v_count v_index v_neighbor = true ->
+  Z.of_nat (length v_count) = img_max img /\ v_index = excl_cumsum 0 v_count /\
+  forall l, 1 <= l <= img_max img ->
+    forall m, In m (slice (nth (Z.to_nat (l - 1)) v_index 0) (nth (Z.to_nat (l - 1)) v_count 0) v_neighbor) <->
+              m <> 0 /\ m <> l /\ touching img l m.
+Proof. exact neighbors_ok_sound. Qed.
+Print Assumptions C15_neighbors_ok_sound.
+
+Theorem C15_colors_ok_sound : forall img col, colors_ok img col = true ->
+  forall y x, 0 <= y < Z.of_nat (img_h img) -> 0 <= x < Z.of_nat (img_w img) ->
+    (get2 img y x = 0 -> get2 col y x = 0) /\ (get2 img y x <> 0 -> 0 < get2 col y x) /\
+    (forall y' x', 0 <= y' < Z.of_nat (img_h img) -> 0 <= x' < Z.of_nat (img_w img) ->
+       get2 img y x = get2 img y' x' -> get2 col y x = get2 col y' x') /\
+    (forall d, In d dirs8 -> get2 img y x <> 0 -> get2 img (y + fst d) (x + snd d) <> 0 ->
+       get2 img y x <> get2 img (y + fst d) (x + snd d) -> get2 col y x <> get2 col (y + fst d) (x + snd d)).
+Proof. exact colors_ok_sound. Qed.
+Print Assumptions C15_colors_ok_sound.
+
+Theorem C15_relabel_ok_sound : forall img new n, relabel_ok img new n = true ->
+  (forall p, In p (rl_pairs img new) -> (fst p = 0 -> snd p = 0) /\ (fst p <> 0 -> 1 <= snd p <= n)) /\
+  (forall p q, In p (rl_pairs img new) -> In q (rl_pairs img new) -> fst p <> 0 -> fst q <> 0 ->
+     (fst p < fst q <-> snd p < snd q)) /\
+  (forall k, 1 <= k <= n -> In k (concat new)).
+Proof. exact relabel_ok_sound. Qed.
+Print Assumptions C15_relabel_ok_sound.
+
+(* the certificate checker for all_connected_components, any graph size: when it accepts, the labels
+   are exactly the partition of 0..max into the connected components of the undirected edge list *)
+Theorem C15_acc_cert_sound : forall i j labels par eidx dep rep : list N,
+  acc_cert_ok i j labels par eidx dep rep = true -> i <> [] ->
+  let n := S (N.to_nat (list_maxN (i ++ j))) in
+  length i = length j /\ length labels = n /\
+  forall u w, (u < n)%nat -> (w < n)%nat ->
+    (nth u labels 0%N = nth w labels 0%N <-> uconn (combine i j) (N.of_nat u) (N.of_nat w)).
+Proof. exact acc_cert_sound. Qed.
+Print Assumptions C15_acc_cert_sound.
